@@ -1164,7 +1164,7 @@ func ruleTempConn(c *Ctx) {
 		}
 		if call, ok := in.(ssa.CallInstruction); ok {
 			// an error response: a repository function that writes the response status (httpError, s.writeError, ...)
-			if sf := call.Common().StaticCallee(); sf != nil && p.isRepoFn(sf) && sf.Parent() == nil && p.writesResponse(sf, 0) {
+			if sf := call.Common().StaticCallee(); sf != nil && p.isRepoFn(sf) && sf.Parent() == nil && p.writesResponse(sf, 0) && !takesRequestCB(t, fr, call) {
 				return []Ev{{Kind: "httpError", Stop: true}}
 			}
 		}
@@ -1176,7 +1176,9 @@ func ruleTempConn(c *Ctx) {
 		}
 		return nil
 	}
-	sp.Inline = func(t *Tracer, fr *Frame, cl ssa.CallInstruction, f *ssa.Function) bool { return f.Parent() != nil }
+	sp.Inline = func(t *Tracer, fr *Frame, cl ssa.CallInstruction, f *ssa.Function) bool {
+		return f.Parent() != nil || takesRequestCB(t, fr, cl)
+	}
 	// the response writer rs is handed to cb: model "cb(c, rs)" as running rs once
 	tr := runTrace(p, fn, sp)
 	bad := ""
@@ -1358,4 +1360,22 @@ func ruleAsyncCompletion(c *Ctx) {
 	if n == 0 {
 		c.viol(fnName(fn), "the completion is never run on the caller's stack", p.Pos(fn.Pos()), "no direct call of the completion found (the immediate-error paths were expected)")
 	}
+}
+
+
+// takesRequestCB: the call hands the root function's request callback (its
+// func-typed parameter named cb) on to its callee — a continuation moved into
+// a named method, to be followed like the closure it replaced.
+func takesRequestCB(t *Tracer, fr *Frame, call ssa.CallInstruction) bool {
+	for _, a := range callArgs(call.Common()) {
+		r := t.Resolve(fr, a)
+		if r.Fr == t.RootFr {
+			if prm, isP := r.V.(*ssa.Parameter); isP && prm.Name() == "cb" {
+				if _, isSig := prm.Type().Underlying().(*types.Signature); isSig {
+					return true
+				}
+			}
+		}
+	}
+	return false
 }
